@@ -21,6 +21,16 @@ COPYRIGHTS = ['Copyright (c) Someone', 'Line 1\nLine 2\n', 'A\n\nB', '  indented
               'x\r\ny\rz', '??/ trigraph', 'a\x0bb\x0cc', 'l1 l2 l3', '']
 
 
+def _ref_formals(gen: ModelGen, itf, direction: str) -> int:
+    """Parameters of the interface's events of that direction whose extern type is declared
+    as a C++ reference."""
+    if itf is None:
+        return 0
+    data = {'.'.join(f): x.data for f, x in gen.externs}
+    return sum(1 for e in itf.events if e.direction == direction for f in e.formals
+               if data.get(f.type.target or '', '').strip().endswith('&'))
+
+
 def comp_info(gen: ModelGen, ent) -> Dict[str, Any]:
     fqn, comp, node = ent
     ports = {}
@@ -31,6 +41,7 @@ def comp_info(gen: ModelGen, ent) -> Dict[str, Any]:
             itf = None
         ports[port.name] = {'itf': port.type.target, 'direction': port.direction,
                             'injected': port.injected,
+                            'n_out_ref_formals': _ref_formals(gen, itf, 'out'),
                             'n_in': sum(1 for e in itf.events if e.direction == 'in') if itf else 0,
                             'n_out': sum(1 for e in itf.events if e.direction == 'out') if itf else 0}
     return {
@@ -140,7 +151,8 @@ def expected_semantics(enc: dict, info: Dict[str, Any]):
 
 def shell_opts(rng: random.Random, want_multiclient: bool = False, small: bool = False,
                mc_decoys: str = 'random', mc_shape: Optional[int] = None,
-               name_families: Optional[float] = None) -> GenOpts:
+               name_families: Optional[float] = None,
+               ref_externs: Optional[float] = None) -> GenOpts:
     """Generator options for models that are meant to be wrapped in a shell."""
     return GenOpts(
         max_ns_depth=rng.choice([0, 1, 2, 3]), max_ns_children=rng.choice([1, 2]),
@@ -152,17 +164,20 @@ def shell_opts(rng: random.Random, want_multiclient: bool = False, small: bool =
         n_provides=(0, 2) if small else (0, 3), n_requires=(0, 2) if small else (0, 3),
         n_injected=(0, 1), n_foreigns=(0, 1), n_subints=(0, 1), noise=0.0,
         want_multiclient=want_multiclient, global_component=0.2, mc_decoys=mc_decoys,
-        mc_shape=mc_shape, name_families=0.15 if name_families is None else name_families)
+        mc_shape=mc_shape, name_families=0.15 if name_families is None else name_families,
+        ref_externs=0.25 if ref_externs is None else ref_externs)
 
 
 def gen_shell_case(rng: random.Random, want_multiclient: Optional[bool] = None,
                    small: bool = False, hostile_text: bool = False, mc_decoys: str = 'random',
                    mc_position: Optional[str] = None, mc_shape: Optional[int] = None,
-                   name_families: Optional[float] = None, accept=None):
+                   name_families: Optional[float] = None, accept=None,
+                   ref_externs: Optional[float] = None):
     """(gen, entry, cfg encoding, info): one model, one encapsulee, one valid configuration."""
     wmc = rng.random() < 0.4 if want_multiclient is None else want_multiclient
     for _attempt in range(400):
-        gen = ModelGen(rng, shell_opts(rng, wmc, small, mc_decoys, mc_shape, name_families))
+        gen = ModelGen(rng, shell_opts(rng, wmc, small, mc_decoys, mc_shape, name_families,
+                                       ref_externs))
         gen.build_skeleton()
         o = gen.o
         for _ in range(gen._rint(o.n_externs)):
